@@ -143,6 +143,35 @@ Proof.
   - apply Forall_forall. auto.
   - exact Pm.
 Qed.
+(* the same through nesting: repr is compositional, so values whose parts print
+   alike print alike; with the theorem above this covers maps rebuilt in other
+   insertion orders anywhere inside lists and map values *)
+Definition SameText (v v' : value) : Prop :=
+  forall ind, repr is_print fmtF fmtE rk v ind = repr is_print fmtF fmtE rk v' ind.
+
+Lemma same_text_list s s' l l' : Forall2 SameText l l' -> SameText (VList s l) (VList s' l').
+Proof.
+  intros F ind. cbn [repr]. f_equal.
+  generalize (@nil N) as buf. induction F as [|e e' l l' H _ IH]; intros buf; [reflexivity|].
+  cbn [fold_left]. rewrite (H (ind + 1)%Z). apply IH.
+Qed.
+
+Lemma same_text_map_pointwise m m' :
+  Forall2 (fun e e' => fst e = fst e' /\ SameText (snd e) (snd e')) m m' -> SameText (VMap m) (VMap m').
+Proof.
+  intros F ind. cbn [repr]. f_equal. f_equal. f_equal.
+  induction F as [|e e' m m' [Hk Hv] _ IH]; [reflexivity|]. cbn [map].
+  rewrite Hk, (Hv (ind + 2)%Z), IH. reflexivity.
+Qed.
+
+Theorem repr_order_canonical_nested_partial m m'' m' :
+  Permutation m m'' -> StrictKeys rk m ->
+  Forall2 (fun e e' => fst e = fst e' /\ SameText (snd e) (snd e')) m'' m' ->
+  SameText (VMap m) (VMap m').
+Proof.
+  intros Pm SK F ind. rewrite (repr_order_canonical_partial m m'' ind Pm SK).
+  apply same_text_map_pointwise. exact F.
+Qed.
 End ReprOrder.
 
 (* ------------------------------------------------------------------ *)
